@@ -14,13 +14,14 @@ import re
 from nv.framework import Check, pmap, sha, harness_fail
 from nv import loader, progs
 
-OPTSETS = [[], ["-O0"], ["-O3"], ["-feof-support", "-fyield-support"], ["-fallocate-str-space-dynamic-on-demand", "-fdelete-string-free-memory"]]
+OPTSETS = [[], ["-O0"], ["-O3"], ["-feof-support", "-fyield-support"], ["-fallocate-str-space-dynamic-on-demand", "-fdelete-string-free-memory"],
+           ["-feof-support", "-fcodepoints-in-errors", "-O2", "--collapsed-range-length", "0"], ["-O2", "--collapsed-range-length", "-3", "--max-shortcircuit-fallthrough", "-1"]]
 
 OUT_TYPES = ["bool", "int", "int{unsigned}", "int{signed, size 1}", "int{unsigned, size 2}", "int{size 4}", "int{unsigned, size 8}", "enum{A,B}", "str[4]", "unterminated str[4]", "raw{uint32_t}", "raw{uint8_t}"]
 ODD_TYPES = ["int{size %d}" % k for k in (0, 3, 5, 6, 7, 9, 16)] + ["int{unsigned, size %d}" % k for k in (0, 3, 5, 6, 7, 9, 16)] + \
             ["int{signed, unsigned}", "int{size 1, size 2}", "enum{A,A}", "enum{A,B,A}", "str[0]", "str[1]", "str[-1]", "str[0x10]", "str[0b11]", "str[70000]", "str[4294967297]", "unterminated str[0]", "unterminated str[1]",
              "raw{float}", "raw{foo_t}", "raw{A}", "str[+3]"]
-ATOMS = ["true", "false", "5", "-3", "+7", "0x10", "-0x10", "0b11", "'a'", "'\\n'", "'\\q'", "'\\''", '"ab"', '""', '"ab"i', '"6162"b', '"616"b', '"zz"b', "A", "B", "nosuch", "v", "[1 + 2]", "[v + 1]", "[$last]", "[v.len]", "[v[0]]",
+ATOMS = ["[1 << -1]", "[4 / (1 << -1)]", "[1 >> 100]", "[1 << 100]", "[7 % (3 - 3)]", "[(1 - 1) / 2]", "[-1 >> 1]", "[5 / (2 - 2)]", "true", "false", "5", "-3", "+7", "0x10", "-0x10", "0b11", "'a'", "'\\n'", "'\\q'", "'\\''", '"ab"', '""', '"ab"i', '"6162"b', '"616"b', '"zz"b', "A", "B", "nosuch", "v", "[1 + 2]", "[v + 1]", "[$last]", "[v.len]", "[v[0]]",
          "/a+/", "b/61/", "end", '("a" "b")', "99999999999999999999", "256", "-129", "[1 << 40]", "[1 / 0]", "[!v]", "[-v]", "[v == v]", '"\\xff"', '"\\x00"', '"é"']
 
 
@@ -159,6 +160,14 @@ def structure_cases():
     add('out int x = 0; parser { loop { /a+/; if (x == 1) { break; } else { "b"; } } "a"; }', "ambiguity diagnostics with a conditional break")
     add('out str[4] s; out int n = 0; parser { loop { "a"; if n == 1 { break; } } s += [65]; "b"; }', "append after a loop left by a conditional break")
     add('yieldcode T; out int x = 0; parser { loop { /./; if x == 1 { yield T; } } }', "yield inside an if")
+    add('parser { optional { end; } end; }', "ambiguous end patterns")
+    add('parser { optional { "a"; } /[a-c]/; }', "ambiguity diagnostics on a range")
+    add('parser { case { /[a-f]+/ -> {} "abc" -> {} } }', "ambiguous case with ranges")
+    add('parser { "a"; end; }', "end after a match")
+    add('parser { /[a-z]+/; /[0-9a-f]/; end; }', "ranges before end")
+    add('out enum{aa,Bb,c_d} e; parser { "a"; e = aa; "b"; e = Bb; "c"; if e == c_d { "d"; } }', "lower-case enum constants")
+    add('finishcode ok, Fail; yieldcode more; parser { "a"; finish ok; }', "lower-case result codes")
+    add('hook Hook_1; out int Out_1 = 0; parser { "a"; Hook_1(); Out_1 = 1; }', "mixed-case names")
     return P
 
 
@@ -224,7 +233,7 @@ def run(tier, seed):
     cases = [(s, w, []) for s, w in esc_cases() + structure_cases() + matrix_cases()] + corpus_swaps(tier, seed)
     items = []
     for i, (s, w, a) in enumerate(cases):
-        osets = OPTSETS if (tier == "thorough" or i % 5 == seed % 5) else [OPTSETS[0], OPTSETS[1 + i % 4]]
+        osets = OPTSETS if (tier == "thorough" or i % 5 == seed % 5) else [OPTSETS[0], OPTSETS[1 + i % 6]]
         for o in osets:
             items.append((s, w, a + [x for x in o if x not in a]))
     outcomes = {}
